@@ -147,10 +147,10 @@ impl Property for C01 {
         FAULTS
     }
     fn lattice_size(&self) -> u32 {
-        7 * 4 * 12
+        7 * 5 * 12
     }
     fn lattice_desc(&self) -> &'static str {
-        "non-empty native capability set of path B (7) x consumption discipline (4) x drawable kind (12)"
+        "non-empty native capability set of path B (7) x consumption discipline (5) x drawable kind (12)"
     }
     fn sub_eval_name(&self) -> &'static str {
         "device_runs"
@@ -180,7 +180,7 @@ impl Property for C01 {
             gen_small_box(src)
         };
         let caps_b = 1 + src.draw(7) as u8;
-        let disc_b = src.draw(4) as u8;
+        let disc_b = src.draw(crate::dev::N_DISC) as u8;
         let dev = DevCfg { bbox, caps: 0, disc: 0 };
         let stack = if src.draw(3) == 0 {
             gen_stack(src, &dev.r(), dev_kind, 3, true, 24, true, false)
@@ -213,7 +213,7 @@ impl Property for C01 {
         trace.u64(out.scen_hash);
         let kind = sc.drawable.kind();
         out.probes |= probe(&format!("kind_{}", kind));
-        out.lattice = ((sc.caps_b as u32 - 1) * 4 + sc.disc_b as u32) * 12 + sc.drawable.kind_index();
+        out.lattice = ((sc.caps_b as u32 - 1) * crate::dev::N_DISC + sc.disc_b as u32) * 12 + sc.drawable.kind_index();
         if sc.caps_b & crate::dev::CAP_SOLID != 0 {
             out.probes |= probe("native_fill_solid");
         }
